@@ -3,7 +3,7 @@
    the public key of the voucher's device certificate (COSE model, C13), its nonce is the one issued in this session,
    its UEID names the voucher's GUID, and the key-exchange parameter is well formed; the harness constructs requests
    with and without each of these and reports the fact accordingly. *)
-From FDO Require Import Fdo.Server Fdo.ServerFacts.
+From FDO Require Import Cbor.Typed Cose.Sign1 Fdo.Server Fdo.ServerFacts Fdo.Owner Fdo.OwnerFacts.
 Local Open Scope N_scope.
 
 (* SetupDevice (65) answers only a ProveDevice that passes every check, in a TO2 session opened by an accepted 60 *)
@@ -39,6 +39,20 @@ Print Assumptions C02_proved_started.
 Theorem C02_histories : forall rs st h, reach st h -> reach (fst (run_from st h rs)) (snd (run_from st h rs)).
 Proof. exact run_reach. Qed.
 Print Assumptions C02_histories.
+
+(* what [r_ok] of a 64 means in bytes: the body the owner accepted is a COSE_Sign1 signed under the key of the voucher's
+   device certificate, over a claims map whose nonce claim is the ProveDevice nonce of THIS session, whose UEID names the
+   session's GUID, and whose FDO claim is one key-exchange parameter that the session's key exchange accepted
+   (correspondence: kind srv.proof, the bytes on the wire against the responder's answer) *)
+Theorem C02_proof_bytes : forall O_der O_rfc O_verify devkey guid nonce xb_ok body,
+  prove_device_ok O_der O_rfc O_verify devkey guid nonce xb_ok body = true ->
+  exists prot unprot pl sig eat xb,
+    open_token O_der O_rfc body = Some (prot, unprot, pl, sig, eat) /\
+    sign1_verify O_der O_rfc O_verify TRaw TBytes devkey prot (Some (VRaw pl)) None sig (VBytes []) = Ok true /\
+    claim 10 eat = Some (VBytes nonce) /\ claim 256 eat = Some (VBytes (byte_of_N 1 :: guid)) /\
+    claim (-257) eat = Some (VList [VBytes xb]) /\ xb_ok xb = true.
+Proof. exact prove_device_sound. Qed.
+Print Assumptions C02_proof_bytes.
 
 (* non-vacuity: with the proof, service; without (wrong signer / replayed token / plaintext 66), errors only *)
 Example C02_with_and_without :
